@@ -201,7 +201,7 @@ theorem split_axis_elems (a : Arr α) (zero : α) (axis : Nat) (hwf : a.WF) (hax
       have hre : (Arr.flat ((arr.elems.drop (k * (a.shape.eraseIdx axis).prod)).take (a.shape.eraseIdx axis).prod)).reshape
           (1 :: a.shape.eraseIdx axis) = .ok ⟨(arr.elems.drop (k * (a.shape.eraseIdx axis).prod)).take (a.shape.eraseIdx axis).prod,
             1 :: a.shape.eraseIdx axis⟩ := by
-        exact Arr.new_of_prod (by show _ = List.length _; rw [hcl]; simp)
+        exact Arr.new_of_prod (by simp only [Arr.flat]; rw [hcl]; simp)
       rw [hre, Res.bind_ok]
       obtain ⟨r, hr1, hr2⟩ := moveFront_unit_elems
         (⟨(arr.elems.drop (k * (a.shape.eraseIdx axis).prod)).take (a.shape.eraseIdx axis).prod, 1 :: a.shape.eraseIdx axis⟩ : Arr α)
